@@ -306,3 +306,35 @@ func VerifH_C04_step() {
 		verifAssert(xj <= n, "Next yielded an element outside 1..n")
 	}
 }
+
+// VerifH_C04_stepArith: the arithmetic of one step, no seam, on boundary elements: for row ROW,
+// current element I and generator G each drawn by the solver from a pool of boundary values
+// (1, 2, 3, 2^16+1, 2^31, 2^32-1, 2^32, 2^32+1, (P-1)/2, P-2, P-1, all taken mod P), Next moves
+// to (I*G) mod P computed in full width - the product of two 33-bit elements of the top row does
+// not fit 64 bits.  (A fully symbolic I and G makes math/big branch on undecidable word
+// conditions: tried, inconclusive - see DESIGN.)
+func VerifH_C04_stepArith() {
+	row := verifParam("ROW", 31)
+	g := cyclicGroups[row]
+	P := uint64(g.P)
+	pool := []uint64{1, 2, 3, 1<<16 + 1, 1 << 31, 1<<32 - 1, 1 << 32, 1<<32 + 1, (P - 1) / 2, P - 2, P - 1}
+	pick := func(label string) uint64 {
+		k := ndU8(label)
+		verifAssume(int(k) < len(pool))
+		v := pool[verifConcretize(uint64(k))] % P
+		if v == 0 {
+			v = 1
+		}
+		return v
+	}
+	i, gen := pick("I"), pick("G")
+	want := c04MulMod(i, gen, P)
+	it := &rangeIterator{P: big.NewInt(g.P), G: new(big.Int).SetUint64(gen),
+		rangeLimit: big.NewInt(g.P - 1),
+		I:          new(big.Int).SetUint64(i),
+		startI:     big.NewInt(0)} // 0 is not a group element: this step never stops
+	ok := it.Next()
+	verifAssert(ok, "Next stopped although the walk is not back at its start element")
+	verifAssert(it.Int().IsUint64() && it.Int().Uint64() == want, "Next does not move to I*G mod P (product truncated to a machine word?)")
+	verifCover("done")
+}
